@@ -334,11 +334,14 @@ def _sample_shapes(ctx, rid, repo):
     handed = {}
     B = 2
     try:
-        psets = {
-            "g1": Obj("g1", {"n_parameters": c(2), "pdf_type": "normal", "sigmas": [at("s0"), at("s1")], "auxdata": [at("ng0"), at("ng1")]}, closed=True),
-            "p1": Obj("p1", {"n_parameters": c(2), "pdf_type": "poisson", "factors": [at("f0"), at("f1")], "auxdata": [at("np0"), at("np1")]}, closed=True),
-            "g2": Obj("g2", {"n_parameters": c(1), "pdf_type": "normal", "auxdata": [at("ng2")]}, closed=True),
-        }
+        # REAL parameter-set objects (parameters/paramsets.py interpreted): what a set without configured widths looks like is the
+        # classes' business, not this rule's
+        from .c02 import real_paramsets
+        psets = real_paramsets(repo, {
+            "g1": ("constrained_by_normal", 2, {"auxdata": [at("ng0"), at("ng1")], "sigmas": [at("s0"), at("s1")]}),
+            "p1": ("constrained_by_poisson", 2, {"auxdata": [at("np0"), at("np1")], "factors": [at("f0"), at("f1")]}),
+            "g2": ("constrained_by_normal", 1, {"auxdata": [at("ng2")]}),
+        })
         slices, aux_order = {"mu": (0, 1), "p1": (1, 3), "g1": (3, 5), "g2": (5, 6)}, ["g1", "p1", "g2"]
 
         def dist(kind):
